@@ -42,9 +42,11 @@ def run(ctx):
         sysmon.feed(ctx, res, findings, 'system read-only gcc, rw_mode in the file and SCCACHE_DIR in the environment')
         res = sysmon.st.run_readonly(sysmon.sysroot(ctx, 'c15'), 'c15o', '/usr/bin/gcc', ctx.seed * 19, 1, 6, oversize=True)
         sysmon.feed(ctx, res, findings, 'system read-only, directory larger than its size limit')
+        res = sysmon.st.run_readonly(sysmon.sysroot(ctx, 'c15'), 'c15t', '/usr/bin/gcc', ctx.seed * 31, 1 if ctx.quick() else 4, 6 if ctx.quick() else 14, oversize='tight', damage=False)
+        sysmon.feed(ctx, res, findings, 'system read-only, size limit 1.25 x the directory (preprocessor cache mode on)')
     ctx.rules.append('system: three configuration variants (SCCACHE_DIR + SCCACHE_LOCAL_RW_MODE; SCCACHE_LOCAL_RW_MODE as the only disk-cache variable with the cache at its default location; config file with rw_mode = "READ_ONLY"); cache populated read-write (6 requests), half of the histories with damaged entries, server restarted with SCCACHE_LOCAL_RW_MODE=READ_ONLY (one third with SCCACHE_RECACHE=1, half with preprocessor cache mode off), '
                      'history of repeats / edits / failures / restarts; listing of every file with sha256 before and after must be identical and every result must equal the direct compile')
-    ctx.assumptions += ['mtimes are touched on every hit (metadata, not part of the statement)', 'proviso of reopen_keeps_files_partial: the directory is within its size limit at first use (F-C15-a otherwise)']
+    ctx.assumptions += ['mtimes are touched on every hit (metadata, not part of the statement)', 'readonly_session_keeps_files: the directory holds fewer than 2^64 bytes']
 
 def replay(ctx, path):
     if any(l.startswith('ld\t') for l in open(path)):
